@@ -8,7 +8,7 @@
    tree_shake (optimisation.rs) and merge_bytecode (environment.rs) are NOT modelled: each of their
    outputs is checked by the extracted `is_renaming`, and the theorems below say what an accepted
    pair guarantees. serde_json is not modelled: the JSON leg is validated field-wise only. *)
-From Quiver Require Import vm.Wf vm.Remap vm.RemapProofs vm.RemapWf.
+From Quiver Require Import vm.Wf vm.Remap vm.RemapProofs vm.RemapWf vm.RemapInject.
 
 (* Lock-step simulation. For every function the renaming maps — every function reachable from the
    entry is (next theorem) — every argument, every captured environment and every sequence of outside
@@ -16,11 +16,18 @@ From Quiver Require Import vm.Wf vm.Remap vm.RemapProofs vm.RemapWf.
    carry ids: the renamed program, started on the renamed state and fed the renamed inputs,
    produces step for step the renaming of what the original produces: the same fault, or a related
    next state, or a related final value. IsType and Equal verdicts are COMPUTED here from each
-   program's own type_compatibility rows and canonical_tuples (xrun), not assumed equal. *)
+   program's own type_compatibility rows and canonical_tuples (xrun), not assumed equal.
+   Hypothesis `typed_run`: along the ORIGINAL execution, every tuple value tested by an IsType carries
+   a tuple id that has a `Type::Tuple` entry in the original program (C08's has_type_entry obligation:
+   the compiler registers the static type of every value it lets reach a run-time test). Without an
+   entry the original answers "no" to every pattern, while a program merged earlier may have
+   registered the entry (typically Type::Tuple(OK)) and the merged table may answer "yes": see
+   the C10 report; the validator compares rows on tuple tags that have an entry. *)
 Theorem C10_renaming_simulation : forall rho X X', is_renaming rho X X' = true ->
   forall bin_eq f f' caps caps' arg arg' pers xs xs',
   app (r_f rho) f = Some f' -> Forall2 (vrel rho) caps caps' -> vrel rho arg arg' ->
   Forall2 (xvrel rho) xs xs' ->
+  typed_run X bin_eq (init_state f caps arg pers) xs ->
   rrel rho (xrun X bin_eq (init_state f caps arg pers) xs)
            (xrun X' bin_eq (init_state f' caps' arg' pers) xs').
 Proof. exact renaming_simulation. Qed.
@@ -38,7 +45,7 @@ Print Assumptions C10_renaming_covers_reachable.
    verdict (row of the renamed type, read at the renamed tag) and the same Equal verdict
    (values_equal with each side's canonical tuple ids) on related values *)
 Theorem C10_verdicts_commute : forall rho X X', is_renaming rho X X' = true ->
-  (forall v v' y y' w, vrel rho v v' -> app (r_y rho) y = Some y' -> row_of X y = Some w ->
+  (forall v v' y y' w, vrel rho v v' -> app (r_y rho) y = Some y' -> row_of X y = Some w -> tag_typed X v ->
      istype_verdict X v y = istype_verdict X' v' y') /\
   (forall bin_eq vs vs', Forall2 (vrel rho) vs vs' -> equal_verdict X bin_eq vs = equal_verdict X' bin_eq vs').
 Proof. exact verdicts_commute. Qed.
@@ -100,3 +107,20 @@ Theorem C10_value_reemit_nonvacuous :
   wfx Examples.exM Examples.ex_value.
 Proof. exact (conj Examples.ex_emit Examples.ex_emit_wf). Qed.
 Print Assumptions C10_value_reemit_nonvacuous.
+
+(* inject_function_captures (program.rs:228, model `emit_injected`): what `quiv compile` does to an
+   entry function that captured values. The closure is re-emitted as Function(f') of a capture-free
+   function whose body is a prefix followed by the original body; entering f' on any argument and
+   running the prefix yields exactly the captures as the frame's locals, the argument still on the
+   stack, pc at the start of the original body (captures without nested capturing closures). *)
+Theorem C10_inject_rebuilds_captures : forall bytes_of f c cs X X2 code,
+  Forall flat (c :: cs) -> Forall (wfx X) (c :: cs) ->
+  emit_injected bytes_of (VFun f (c :: cs)) X = Some (X2, code) ->
+  exists f' fd fd' pre,
+    code = [IFunction f'] /\ nth_error (x_funcs X2) f' = Some fd' /\ nth_error (x_funcs X2) f = Some fd /\
+    xf_code fd' = pre ++ xf_code fd /\ xf_caps fd' = 0 /\ xf_type fd' = xf_type fd /\
+    forall Y, extends X2 Y -> forall arg st lo base rest pers,
+      run (project Y) (at_pc (arg :: st) lo f' base 0 0 rest pers) (caps_inputs (c :: cs)) =
+      Next (at_pc (arg :: st) (lo ++ c :: cs) f' base 0 (length pre) rest pers).
+Proof. exact inject_rebuilds_captures. Qed.
+Print Assumptions C10_inject_rebuilds_captures.
